@@ -820,8 +820,11 @@ func c22Run(t *testing.T, r *kit.Run, cs c22Case, in *c22Inputs, base string) ([
 		// After a restart the Store verifies the checksum of its database file in the
 		// background and refuses snapshots meanwhile ("CAS conflict"): a legitimate
 		// transient refusal, so the request is repeated.
-		for deadline := time.Now().Add(c22Converge); err != nil && strings.Contains(err.Error(), "CAS conflict") && time.Now().Before(deadline); {
-			time.Sleep(20 * time.Millisecond)
+		// So is raft's "wait until the configuration entry ... has been applied" right
+		// after the join (its FSM goroutine has not yet passed the membership entry).
+		for deadline := time.Now().Add(c22Converge); err != nil && time.Now().Before(deadline) &&
+			(strings.Contains(err.Error(), "CAS conflict") || strings.Contains(err.Error(), "wait until the configuration entry")); {
+			time.Sleep(10 * time.Millisecond)
 			err = n.s.Snapshot(1)
 		}
 		if err != nil && err != ErrNothingNewToSnapshot && err != ErrNoWALToSnapshot &&
